@@ -5,6 +5,7 @@ for d in seeded/*/; do
   s=$(basename $d)
   [ -f $d/meta.json ] || { echo "$s: no meta.json"; continue; }
   c=$(python3 -c "import json;print(json.load(open('$d/meta.json'))['detected_by'][0])")
+  if [ "$c" = none ]; then echo "SEED $s: recorded as not detected (see its meta.json and DESIGN.md section 10)"; continue; fi
   timeout 1500 tools/try_seed.sh $s $c quick 2>&1 | tail -1
   git -C /repo checkout -- . 2>/dev/null
 done
